@@ -275,6 +275,8 @@ def deep_probe(tier, kinds=None):
     ran = 0
     for nm, _, _, _ in witness.DEEP:
         for n in ns:
+            if nm in witness.MIXED and n > 250:
+                continue   # the mixed-category inputs are about the depth bound x fuel interplay, not about the machine stack
             w = witness.run_one(witness.deep_input(nm, n))
             ran += 1
             if w and kinds and w['kind'] not in kinds:
@@ -303,8 +305,8 @@ def run_tree_builder(tier, in_unit=False):
     text, names = gen_build_tree.generate(open(os.path.join(VERIF, 'kani/parser/build_tree.rs.in')).read(), pairs)
     gen = os.path.join(scratch(), 'build_tree_gen.rs')
     open(gen, 'w').write(text)
-    kani_run.standalone_syntax_crate(REPO, d, [gen, os.path.join(VERIF, 'kani/parser/nth_error.rs')])
-    names += ['parser::verif_kani::nth_contract', 'parser::verif_kani::error_contract']
+    kani_run.standalone_syntax_crate(REPO, d, [gen, os.path.join(VERIF, 'kani/parser/nth_error.rs'), os.path.join(VERIF, 'kani/parser/lex_string.rs')])
+    names += ['parser::verif_kani::nth_contract', 'parser::verif_kani::error_contract', 'parser::verif_kani::lex_string_contract']
     return kani_run.run_many(d, names, ('-Z', 'stubbing'), 3000, jobs=len(names)), pairs
 
 
@@ -473,7 +475,7 @@ def main(prop, tier):
             entry = {'what': 'Kani: %s' % r['harness'].split('::')[-1], 'status': r['status'], 'checks': r.get('n_checks'),
                      'covers': r['covers'], 'cbmc_s': r.get('cbmc_s'),
                      'bound': ('real Parser::build_tree, rowan builder stubbed by recording stubs; N raw one-byte tokens with symbolic kinds over {WHITESPACE, COMMENT, COMMENT_STATEMENT, COMMENT_MODULE, IDENT}, one enumerated event shape'
-                               if 'build_tree' in r['harness'] else 'token vector of length <= 3, everything else symbolic')}
+                               if 'build_tree' in r['harness'] else ('every remainder of <= 3 characters over {", \\, a, U+00DF, U+1F4A3, LF} (259 strings, symbolic choice)' if 'lex_string' in r['harness'] else 'token vector of length <= 3, everything else symbolic'))}
             bounded.append(entry)
             if r['status'] in ('ERROR', 'TIMEOUT'):
                 bt_undecided.append(r['harness'])
@@ -485,7 +487,7 @@ def main(prop, tier):
                         bt_witness[0] = False
                 w = bt_witness[0] or None
                 for fcheck in r['failed_checks']:
-                    if 'build_tree' not in r['harness'] and not any(k in fcheck['description'] for k in ('leaves', 'pushes no event', 'nth ')):
+                    if 'build_tree' not in r['harness'] and 'lex_string' not in r['harness'] and not any(k in fcheck['description'] for k in ('leaves', 'pushes no event', 'nth ')):
                         entry.setdefault('other_property_failures', []).append(fcheck['description'] + ' (error-range clause: C20)')
                         continue
                     key = ('build_tree' if 'build_tree' in r['harness'] else r['harness'], fcheck['description'])
@@ -493,7 +495,7 @@ def main(prop, tier):
                         continue
                     bt_seen.add(key)
                     path = write_replay(prop, 'parser_kani :: %s :: %s' % (r['harness'].split('::')[-1], fcheck['description']),
-                                        'crates/syntax/src/parser.rs (Parser::build_tree)' if 'build_tree' in r['harness'] else 'crates/syntax/src/parser.rs (Parser::nth / Parser::error)',
+                                        'crates/syntax/src/parser.rs (Parser::build_tree)' if 'build_tree' in r['harness'] else ('crates/syntax/src/lexer.rs (lex_string)' if 'lex_string' in r['harness'] else 'crates/syntax/src/parser.rs (Parser::nth / Parser::error)'),
                                         'kani 0.68.0 / cbmc 6.11', json.dumps(fcheck), w, './check %s --replay <this file>' % prop)
                     violations.append((path, w is not None))
             elif r['covers'] and r['covers'][0] != r['covers'][1]:
@@ -541,7 +543,7 @@ def main(prop, tier):
             'token vector length + 8 <= usize::MAX (requires of verif_top / verif_parse; a Vec of 40-byte LexTokens cannot be longer than isize::MAX / 40)',
             'glue lines of parse_module that are not extracted: lexing (tokens_raw) and the trivia filter; from them verif_parse takes `tokens.len() == number of non-trivia raw tokens` and `every parser token has a token kind`',
             'rowan GreenNodeBuilder specified by its call trace (contracts/parser_stubs.rs): start_node/token/finish_node append to the trace, finish() requires a single-root balanced trace; text-size str[TextRange] uninterpreted; std take_while/count and Option::map_or by assume_specification',
-            'logos lexer: token spans non-empty, contiguous from 0 to len, on char boundaries, token kinds only (assumption i)',
+            'logos lexer: token spans non-empty, contiguous from 0 to len, on char boundaries, token kinds only (assumption i); the one piece of glas code inside the lexer, the callback lexer::lex_string, is checked by a bounded Kani harness (bumps inside the remainder, to a character boundary, just after an unescaped quote; no bump on failure)',
             'rowan GreenNodeBuilder: a balanced call sequence yields a tree whose leaves are the token() calls in order (assumption iii)',
             'parse_module glue: lexing and trivia filtering lines (the Parser literal itself is extracted and verified in verif_top)',
             'rewrite R10 (DESIGN.md 0.6): the progress-guard fuel `Cell<u32>` is verified as a plain `u32` field with `&mut self` receivers on nth/at/at_any; with it Verus PROVES that the fuel never reaches 0 (every call of Parser::nth satisfies `fuel > 0`), i.e. the "parser is stuck" panic is unreachable for every input - the contract of Parser::nth (burns exactly one unit, changes nothing else) is proved by Verus on the rewritten text and checked by Kani on the real Cell-based text',
